@@ -11,6 +11,7 @@ EXPLANATION = (
     "(R-C20-passthrough) the Forward handed to the link carries the stored publish properties (so they survive towards MQTT 5 subscribers) and the publisher's topic alias is cleared before storage; every matching filter's log stores its own clone of the publish and of its properties. "
     "(R-C20-props) the broker's v5 PUBLISH property encoder and decoder use the same identifier and MQTT 5 wire type for each of the publish properties (shared with C04's table rule), and its reader/len() count every variable-length property value once with its 2-byte prefix (shared with R-C04-prop-accounting); "
     "(R-C20-alias) a broker-side topic alias replaces the topic only for wildcard-free filters (or is keyed by the publish topic): one alias, one topic; "
+    "R-C20-encode-total also covers the framing of forwarded (qos 0, pkid != 0) publishes: len() and write() agree on the packet-id bytes (shared with R-C04-len-strings). "
     "NOT decided: byte-level equality of topic/payload across versions (value level, see C04).")
 ASSUMPTIONS = [
     "packets decoded from the network (constructed inside protocol::v4/v5 codec modules) reach an encoder only through the router paths analysed here (Publish properties are treated as possibly present)",
